@@ -585,7 +585,9 @@ var ExpireBound int64 = 1000000000 // äº¤æ˜“è¿‡æœŸåˆ†ç•Œçº¿ï¼Œå°äºexpireBoundæ
 // IsExpire äº¤æ˜“æ˜¯å¦è¿‡æœŸ
 func (tx *Transaction) IsExpire(cfg *Chain33Config, height, blocktime int64) bool {
 	group, _ := tx.GetTxGroup()
-	if group == nil {
+	// an expanded group member carries the group hash in Header, which may happen to decode
+	// as a Transactions message without any tx: that is not a packed group
+	if group == nil || len(group.GetTxs()) == 0 {
 		return tx.isExpire(cfg, height, blocktime)
 	}
 	return group.IsExpire(cfg, height, blocktime)
